@@ -766,6 +766,102 @@ Proof.
   destruct (url_with escape_gk (gateway_base hs gw) job gk) as [u|e]; cbn in *; [exact I|exact H].
 Qed.
 
+(* ---------- successive calls in one process: every call is the call made alone ---------- *)
+Lemma heap_read_alloc h l : heap_read (fst (heap_alloc h l)) (snd (heap_alloc h l)) = l.
+Proof.
+  unfold heap_alloc, heap_read. cbn [fst snd]. rewrite app_nth2 by apply Nat.le_refl. rewrite Nat.sub_diag. reflexivity.
+Qed.
+
+Lemma heap_write_length h : forall a l, length (heap_write h a l) = length h.
+Proof. induction h as [|x r IH]; intros [|a] l; cbn; try reflexivity; rewrite IH; reflexivity. Qed.
+
+Lemma heap_write_other h : forall a l b, b <> a -> heap_read (heap_write h a l) b = heap_read h b.
+Proof.
+  unfold heap_read. induction h as [|x r IH]; intros [|a] l [|b] Hne; cbn; try reflexivity.
+  - congruence.
+  - apply IH. congruence.
+Qed.
+
+Lemma heap_read_app_old (h : heap) l b : (b < length h)%nat -> heap_read (h ++ [l]) b = heap_read h b.
+Proof. intro Hb. unfold heap_read. apply app_nth1. exact Hb. Qed.
+
+Section ProcessProofs.
+  Variable esc : str -> str -> res (str * str).
+
+  (* what a call shows does not depend on the heap it runs in, i.e. on anything an earlier call or handler did *)
+  Lemma call_in_obs {T} (h : heap) (c : call T) : fst (call_in_with esc h c) = call_alone_with esc c.
+  Proof.
+    unfold call_in_with, call_alone_with, calls_with.
+    destruct (request_with esc (c_api c) (c_hs c) (c_gw c) (c_job c) (c_gk c) (c_expo c) (c_timeout c)) as [r|e];
+      cbn [fst bind]; [|reflexivity].
+    rewrite heap_read_alloc. destruct r; reflexivity.
+  Qed.
+
+  Lemma seq_in_obs {T} (cs : list (call T)) : forall h, fst (seq_in_with esc h cs) = map (call_alone_with esc) cs.
+  Proof.
+    induction cs as [|c r IH]; intro h; cbn [seq_in_with fst map]; [reflexivity|].
+    rewrite call_in_obs, IH. reflexivity.
+  Qed.
+
+  (* a call only ever grows the heap, and leaves every object that was there before as it was *)
+  Lemma call_in_heap {T} (h : heap) (c : call T) :
+    (length h <= length (snd (call_in_with esc h c)))%nat
+    /\ forall b, (b < length h)%nat -> heap_read (snd (call_in_with esc h c)) b = heap_read h b.
+  Proof.
+    unfold call_in_with.
+    destruct (request_with esc (c_api c) (c_hs c) (c_gw c) (c_job c) (c_gk c) (c_expo c) (c_timeout c)) as [r|e];
+      cbn [snd]; [|split; [apply Nat.le_refl|reflexivity]].
+    unfold heap_alloc. cbn [fst snd]. split.
+    - rewrite heap_write_length, app_length. cbn. lia.
+    - intros b Hb. rewrite heap_write_other by lia. apply heap_read_app_old. exact Hb.
+  Qed.
+
+  Lemma seq_in_heap {T} (cs : list (call T)) : forall h,
+    (length h <= length (snd (seq_in_with esc h cs)))%nat
+    /\ forall b, (b < length h)%nat -> heap_read (snd (seq_in_with esc h cs)) b = heap_read h b.
+  Proof.
+    induction cs as [|c r IH]; intro h; cbn [seq_in_with snd]; [split; [apply Nat.le_refl|reflexivity]|].
+    destruct (call_in_heap h c) as [L1 K1]. destruct (IH (snd (call_in_with esc h c))) as [L2 K2]. split.
+    - lia.
+    - intros b Hb. rewrite K2 by lia. apply K1. exact Hb.
+  Qed.
+End ProcessProofs.
+
+Lemma seq_independent {T} (h : heap) (cs : list (call T)) : fst (seq_in h cs) = map call_alone cs.
+Proof. apply seq_in_obs. Qed.
+
+Lemma seq_fresh {T} (cs : list (call T)) : calls_seq cs = map call_alone cs.
+Proof. apply seq_in_obs. Qed.
+
+Lemma seq_nth {T} (h : heap) (pre : list (call T)) c post :
+  nth_error (fst (seq_in h (pre ++ c :: post))) (length pre) = Some (call_alone c).
+Proof.
+  rewrite seq_independent, map_app. cbn [map].
+  rewrite nth_error_app2 by (rewrite map_length; apply Nat.le_refl). rewrite map_length, Nat.sub_diag. reflexivity.
+Qed.
+
+Lemma seq_nth_request {T} (h : heap) (pre : list (call T)) c post :
+  encodable (c_job c) -> Forall (fun kv => encodable (snd kv)) (c_gk c) ->
+  exists r, nth_error (fst (seq_in h (pre ++ c :: post))) (length pre) = Some (Ok [r])
+    /\ url_of (gateway_base (c_hs c) (c_gw c)) (c_job c) (c_gk c) = Ok (rq_url r)
+    /\ rq_method r = match c_api c with Push => s2l "PUT" | PushAdd => s2l "POST" | Delete => s2l "DELETE" end
+    /\ rq_body r = match c_api c with Delete => [] | _ => c_expo c end
+    /\ rq_headers r = [(s2l "Content-Type", s2l "text/plain; version=0.0.4; charset=utf-8")]
+    /\ rq_timeout r = c_timeout c.
+Proof.
+  intros Hj Hg.
+  destruct (calls_total (c_api c) (c_hs c) (c_gw c) (c_job c) (c_gk c) (c_expo c) (c_timeout c) Hj Hg) as (r & Hr & Hs).
+  exists r. split; [|exact Hs]. rewrite seq_nth. unfold call_alone, call_alone_with. f_equal. exact Hr.
+Qed.
+
+Lemma seq_heap_untouched {T} (h : heap) (cs : list (call T)) b :
+  (b < length h)%nat -> heap_read (snd (seq_in h cs)) b = heap_read h b.
+Proof. intro Hb. apply (proj2 (seq_in_heap escape_gk cs h)). exact Hb. Qed.
+
+(* the same for the pinned source *)
+Lemma seq_independent_orig {T} (h : heap) (cs : list (call T)) : fst (seq_in_orig h cs) = map call_alone_orig cs.
+Proof. apply seq_in_obs. Qed.
+
 Lemma sort_items_sorted_lt gk : Sorted (fun a b => str_ltb (fst b) (fst a) = false) (sort_items gk).
 Proof.
   pose proof (sort_items_sorted gk) as H. induction H as [|a l _ IH Hd]; constructor; [exact IH|].
